@@ -159,13 +159,35 @@ def _split_top(s, sep):
     return parts
 
 
+def _unparen(e):
+    """drop redundant parentheses around a whole expression"""
+    e = e.strip()
+    while e.startswith('(') and e.endswith(')'):
+        depth, ok = 0, True
+        for i, c in enumerate(e):
+            depth += {'(': 1, '[': 1, '{': 1, ')': -1, ']': -1, '}': -1}.get(c, 0)
+            if depth == 0 and i < len(e) - 1:
+                ok = False
+                break
+        if not ok:
+            break
+        e = e[1:-1].strip()
+    return e
+
+
 def _subst(expr, env):
+    """identifiers replaced through env; spacing, quote style, trailing commas and redundant outer
+    parentheses normalised"""
+    expr = _unparen(expr)
+
     def rep(m):
         if m.start() > 0 and expr[m.start() - 1] == '.':
             return m.group(0)
         return env.get(m.group(0), m.group(0))
     out = re.sub(r'\b%s\b' % _IDENT, rep, expr)
     out = re.sub(r'\s+(?=[^\w])|(?<=[^\w])\s+', '', out)      # blanks only survive between two words
+    out = re.sub(r',(?=[)\]}])', '', out)                       # trailing commas
+    out = re.sub(r'"([^"\'\\]*)"', r"'\1'", out)               # quote style
     return out
 
 
@@ -221,7 +243,7 @@ def normalise_kernel(src, name):
             if not m:
                 res.append('unrecognised: parameter ' + p)
                 continue
-            opts = [o.strip().replace(' ', '') for o in _split_top(m.group(1), ',')]
+            opts = [o.strip().replace(' ', '').replace('"', "'") for o in _split_top(m.group(1), ',') if o.strip()]
             et = re.sub(r'^(?:np|numpy|cnp)\.(\w+?)_t$', r'\1', opts[0])
             nd = [o.split('=')[1] for o in opts[1:] if o.startswith('ndim=')]
             other = sorted(o for o in opts[1:] if not o.startswith('ndim='))
